@@ -25,3 +25,4 @@ def rules(ctx):
     S.key_compare_rules(ctx)
     S.c06_r3_durable_drains(ctx)
     S.survey_residue_rules(ctx)
+    S.restore_commit_rules(ctx)
